@@ -93,6 +93,12 @@ def configurations(tier):
                     if dec == 'MemoryBeliefPropagationDecoder':
                         cfg['dec_kwargs'] = {'max_bp_iter': 5}
                     out.append(cfg)
+    # a deformed (non-CSS) code with 256 / 512 generators of mixed type: counts
+    # of generators pass 255
+    for size, cd in (((8, 16), 'XZZX'), ((16, 16), 'XY')) if tier != 'quick' else (((8, 16), 'XZZX'),):
+        out.append({'decoder': 'BeliefPropagationOSDDecoder', 'code': 'Toric2DCode', 'size': list(size),
+                    'code_def': cd, 'code_def_kw': {}, 'noise': 'Zbias', 'p': 0.02,
+                    'dec_kwargs': {'max_bp_iter': 20, 'osd_order': 0}, '_few': 4})
     # larger lattices, many random errors: cluster growth / merging in the
     # union-find decoder only gets deep on lattices of side >= 7
     for size in ([(7, 7), (8, 8)] if tier == 'quick' else [(7, 7), (8, 8), (6, 9), (9, 9), (10, 8)]):
@@ -140,6 +146,7 @@ def configurations(tier):
 def drive(cfg):
     tier = cfg.pop('_tier')
     stress = cfg.pop('_stress', 0)
+    few = cfg.pop('_few', 0)
     rng = np.random.default_rng(common.seed() + abs(hash(D.config_label(cfg))) % 2**31)
     rec = D.Recorder(cfg)
     code, em = rec.code, rec.em
@@ -167,6 +174,8 @@ def drive(cfg):
         e = em.generate(code, cfg['p'], rng=rng)
         syns.append(code.measure_syndrome(e))
     syns.append(syns[0])                                 # zero syndrome again, late
+    if few:
+        syns = syns[:1] + syns[-few - 1:]
     for s in syns:
         rec.decode(0, np.asarray(s).ravel().astype(np.uint8))
     sector = 'all'
